@@ -19,6 +19,7 @@ type frame struct {
 	visits    map[int]int
 	defers    []deferred
 	result    Value
+	merged    []Value // phi values of the current block after an if-conversion
 }
 
 type deferred struct {
@@ -47,7 +48,11 @@ func (r *Run) Global(g *ssa.Global) *Value {
 		return s
 	}
 	s := new(Value)
-	*s = Zero(g.Type().(*types.Pointer).Elem())
+	if v, ok := r.Ex.Cfg.Native.Global(r.Ex.Prog, g); ok {
+		*s = v
+	} else {
+		*s = Zero(g.Type().(*types.Pointer).Elem())
+	}
 	r.Globals[g] = s
 	return s
 }
@@ -158,10 +163,10 @@ func (r *Run) CallValue(fv Value, args []Value, site ssa.Instruction) Value {
 	case f.B != nil:
 		return r.callBuiltin(f.B, args, site)
 	case f.O != nil:
-		if h := r.Ex.Cfg.External; h != nil {
-			// opaque function values are handled by the driver through a nil *ssa.Function
-			panic(unsupported("call of opaque func value %s#%d", f.O.Kind, f.O.ID))
+		if f.O.Kind == "const-result" {
+			return f.O.Items[0]
 		}
+		panic(unsupported("call of opaque func value %s#%d", f.O.Kind, f.O.ID))
 	}
 	pos := "?"
 	if site != nil {
@@ -187,6 +192,11 @@ func (r *Run) CallFunction(fn *ssa.Function, args []Value, site ssa.Instruction)
 	}
 	if cfg.External != nil {
 		if v, ok := cfg.External(r, fn, args, site); ok {
+			return v
+		}
+	}
+	if cfg.Native != nil {
+		if v, ok := cfg.Native.Call(r, fn, args); ok {
 			return v
 		}
 	}
@@ -232,10 +242,17 @@ func (fr *frame) runBlock() {
 	// phis are evaluated simultaneously
 	nphi := 0
 	var phivals []Value
+	merged := fr.merged
+	fr.merged = nil
 	for _, instr := range b.Instrs {
 		phi, ok := instr.(*ssa.Phi)
 		if !ok {
 			break
+		}
+		if merged != nil {
+			phivals = append(phivals, merged[nphi])
+			nphi++
+			continue
 		}
 		nphi++
 		for i, pred := range b.Preds {
@@ -337,6 +354,11 @@ func (fr *frame) step(instr ssa.Instruction) bool {
 		*p.Slot = CopyVal(fr.get(in.Val))
 	case *ssa.If:
 		c := fr.get(in.Cond).(*Term)
+		if !c.Const && !r.Ex.Cfg.NoMerge {
+			if _, known := r.facts[c.S]; !known && fr.tryMerge(in, c) {
+				return true
+			}
+		}
 		succ := 1
 		if r.Decide(c) {
 			succ = 0
@@ -1049,8 +1071,20 @@ func (fr *frame) prepareCall(c *ssa.CallCommon, site ssa.Instruction) (Value, []
 		for _, a := range c.Args {
 			args = append(args, fr.get(a))
 		}
-		fn := r.Ex.Prog.LookupMethod(ifc.T, c.Method.Pkg(), c.Method.Name())
+		var fn *ssa.Function
+		if h, isHost := ifc.V.(Host); isHost {
+			if v, ok := r.Ex.Cfg.Native.CallMethod(r, h.V, c.Method, args[1:]); ok {
+				return Func{O: &Opaque{Kind: "const-result", Items: []Value{v}}}, nil
+			}
+		} else {
+			fn = lookupMethodSafe(r.Ex.Prog, ifc.T, c.Method)
+		}
 		if fn == nil {
+			if h := r.Ex.Cfg.Invoke; h != nil {
+				if v, ok := h(r, ifc, c.Method, args[1:]); ok {
+					return Func{O: &Opaque{Kind: "const-result", Items: []Value{v}}}, nil
+				}
+			}
 			panic(unsupported("no method %s on %s", c.Method.Name(), ifc.T))
 		}
 		return Func{C: &Closure{Fn: fn}}, args
@@ -1083,4 +1117,13 @@ func (r *Run) CallGuardedClosure(fn *ssa.Function, args []Value, env []Value) (r
 	}()
 	res.Ret = r.interpret(fn, args, env, nil)
 	return
+}
+
+func lookupMethodSafe(prog *ssa.Program, t types.Type, m *types.Func) (fn *ssa.Function) {
+	defer func() {
+		if recover() != nil {
+			fn = nil
+		}
+	}()
+	return prog.LookupMethod(t, m.Pkg(), m.Name())
 }
